@@ -3,6 +3,7 @@
 
   seedtool.py capture <name> <prop> <worktree> "<needs>"   verify + store under /verif/seeded/<name>/
   seedtool.py run <name> [tier] [prop...]                  apply to /repo, run checks, undo
+  seedtool.py runwt <name> [tier] [prop...]                same in a scratch worktree of /repo (VERIF_REPO), removed afterwards
 """
 import json
 import os
@@ -61,23 +62,31 @@ def capture(name, prop, wt, needs):
     return 0 if (suite_ok and demo_fails and demo_passes) else 1
 
 
-def run(name, tier, props):
+def run(name, tier, props, wt=False):
     d = os.path.join(VERIF, "seeded", name)
     meta = json.load(open(os.path.join(d, "meta.json")))
     if not props:
         props = [meta["property"]]
-    st = sh("git status --short --untracked-files=no", "/repo").stdout.decode().strip()
+    repo = "/repo"
+    if wt:
+        # scratch worktree of /repo's HEAD (so that /repo itself stays untouched, e.g. while a long check runs on it)
+        repo = "/tmp/seedwt-%s-%d" % (name, os.getpid())
+        r = sh(["git", "worktree", "add", "--detach", repo, "HEAD"], "/repo")
+        if r.returncode != 0:
+            print(r.stdout.decode())
+            return 2
+    st = sh("git status --short --untracked-files=no", repo).stdout.decode().strip()
     if st:
         print("/repo is not clean:", st)
         return 2
-    r = sh(["git", "apply", os.path.join(d, "patch.diff")], "/repo")
+    r = sh(["git", "apply", os.path.join(d, "patch.diff")], repo)
     if r.returncode != 0:
         print("patch does not apply:", r.stdout.decode())
         return 2
     try:
         for p in props:
             r = subprocess.run([os.path.join(VERIF, "check"), p, tier], cwd=VERIF, stdout=subprocess.PIPE, stderr=subprocess.PIPE,
-                               env=dict(os.environ, VERIF_EVIDENCE_DIR=os.path.join(VERIF, "scratch", "seed-evidence")))
+                               env=dict(os.environ, VERIF_REPO=repo, VERIF_EVIDENCE_DIR=os.path.join(VERIF, "scratch", "seed-evidence")))
             out = r.stdout.decode()
             vio = [l for l in out.splitlines() if l.startswith("VIOLATION") or l.startswith("  ")]
             print("== %s on %s (%s): exit %d" % (p, name, tier, r.returncode))
@@ -87,7 +96,10 @@ def run(name, tier, props):
             meta["detected_by"]["%s/%s" % (p, tier)] = {"exit": r.returncode, "violations": [l for l in vio if l.startswith("VIOLATION")][:5],
                                                        "detail": [l.strip() for l in vio if l.startswith("  ")][:10]}
     finally:
-        sh("git checkout -- .", "/repo")
+        if wt:
+            sh(["git", "worktree", "remove", "--force", repo], "/repo")
+        else:
+            sh("git checkout -- .", "/repo")
     json.dump(meta, open(os.path.join(d, "meta.json"), "w"), indent=1)
     return 0
 
@@ -98,3 +110,6 @@ if __name__ == "__main__":
     if sys.argv[1] == "run":
         tier = sys.argv[3] if len(sys.argv) > 3 else "quick"
         sys.exit(run(sys.argv[2], tier, sys.argv[4:]))
+    if sys.argv[1] == "runwt":
+        tier = sys.argv[3] if len(sys.argv) > 3 else "quick"
+        sys.exit(run(sys.argv[2], tier, sys.argv[4:], wt=True))
